@@ -172,11 +172,15 @@ let () =
        items := (it, ln) :: !items
      | None -> ());
     cur := None; obs := [] in
+  let policy = ref "" in
   let judge () =
     flush_cur ();
     let its = List.rev !items in
     List.iter (fun x -> Printf.printf "FAULT %s %s\n" !hdr x) (List.rev !faults);
     (match !cfg with
+     | _ when !policy = "race" ->
+       (* racing mode has no windows and no controlled order: the log is judged by the property monitors only *)
+       Printf.printf "OK %s race-mode (monitors only)\n" !hdr
      | None -> Printf.printf "BADLOG %s no cfg\n" !hdr
      | Some s0 ->
        (match A.accept !mask [s0] (List.map fst its) Model.Datatypes.O with
@@ -198,8 +202,11 @@ let () =
       | ["cfg"; unblock; oncancel; onnotify; oncallback] ->
         if !open_scn then judge ();   (* a scenario cut short by a worker crash: judge its prefix *)
         cfg := Some (M.init (b01 unblock) (b01 oncancel) (b01 onnotify) (b01 oncallback));
-        items := []; faults := []; cur := None; obs := []; open_scn := true
-      | "scenario" :: fam :: seed :: idx :: _ -> hdr := String.concat " " [fam; seed; idx]
+        items := []; faults := []; cur := None; obs := []; open_scn := true; policy := ""
+      | "scenario" :: fam :: seed :: idx :: rest ->
+        hdr := String.concat " " [fam; seed; idx];
+        policy := (match rest with p :: _ -> p | [] -> "")
+      | ("env" | "rel" | "o" | "parked" | "snap") :: _ when !policy = "race" -> ()
       | "env" :: _ | "rel" :: _ -> flush_cur (); cur := Some (f, ln)
       | "o" :: rest -> obs := parse_obs rest :: !obs
       | ["parked"; p] ->
